@@ -47,11 +47,11 @@ Cat(a, b) == [t |-> "cat", a |-> a, b |-> b]
 Regexes == { Cat([t |-> "bol"], Cat(Chr(97), Chr(98))),                                    \* ^ab
              Cat(Chr(98), [t |-> "eol"]),                                                  \* b$
              Cat([t |-> "bol"], Cat([t |-> "plus", a |-> Chr(97)], Cat([t |-> "opt", a |-> Chr(98)], [t |-> "eol"]))),   \* ^a+b?$
-             [t |-> "plus", a |-> [t |-> "set", cs |-> 48..57, neg |-> FALSE]],            \* [0-9]+
+             [t |-> "plus", a |-> [t |-> "set", cs |-> [i \in 1..10 |-> 47 + i], neg |-> FALSE]],            \* [0-9]+
              [t |-> "alt", a |-> Chr(97), b |-> Cat(Chr(98), Chr(99))],                    \* a|bc
              Cat([t |-> "bol"], [t |-> "eol"]),                                            \* ^$
              Cat(Chr(97), Cat([t |-> "any"], Chr(99))),                                    \* a.c
-             Cat([t |-> "bol"], Cat([t |-> "star", a |-> [t |-> "set", cs |-> {97}, neg |-> TRUE]], [t |-> "eol"])),     \* ^[^a]*$
+             Cat([t |-> "bol"], Cat([t |-> "star", a |-> [t |-> "set", cs |-> <<97>>, neg |-> TRUE]], [t |-> "eol"])),     \* ^[^a]*$
              Cat(Chr(97), Cat(Chr(46), Chr(99))) }                                         \* a\.c
 RegexRuleSets == {<<R("regex", [t |-> "re", re |-> re])>> \o n : re \in Regexes, n \in Opt({R("nullable", BV(TRUE))})}
 FormatRuleSets == {<<R("type", IdV(f))>> \o n : f \in Formats, n \in Opt({R("nullable", BV(TRUE))})}
